@@ -32,7 +32,7 @@ Definition binding_ok (rs : list rule) (pack : node_pack) (j : nat) (s : bytes) 
   match b with
   | Leaf i => nth_error (p_leaves pack) i = Some s /\ ~ In s (all_targets rs)
   | Pair i sub =>
-      i < j /\ exists n, nth_error (p_nodes pack) i = Some n /\ nth_error (n_targets n) sub = Some s
+      (i < j)%nat /\ exists n, nth_error (p_nodes pack) i = Some n /\ nth_error (n_targets n) sub = Some s
   end.
 
 Definition node_ok (rs : list rule) (pack : node_pack) (j : nat) (n : node) : Prop :=
